@@ -153,6 +153,35 @@ def ob_assembly_width():
     return Verdict(DISCHARGED, backend="native", sub=n)
 
 
+def ob_cache_key():
+    """the memo of `cache_computed_values` (it holds the scatter pattern `__Get_csr_map(dof_n, isMatrix, Ndof, groups)`) is keyed by the argument objects THEMSELVES: an object built
+    after another one died -- CPython hands it the same address -- never receives the entry of the dead one.  600 short-lived arguments, positional, keyword and nested in a tuple."""
+    from EasyFEA.Utilities._cache import cache_computed_values
+
+    class Arg:
+        def __init__(self, v):
+            self.v = v
+
+    class Holder:
+        @cache_computed_values
+        def f(self, a, b=None):
+            x = a[0] if isinstance(a, tuple) else a
+            return (x.v if x is not None else None, b.v if b is not None else None)
+    h = Holder()
+    n = 0
+    for k in range(200):
+        for form in ("positional", "keyword", "nested"):
+            o = Arg((k, form))
+            got = h.f(o) if form == "positional" else (h.f(None, b=o) if form == "keyword" else h.f((o, 1)))
+            want = ((k, form), None) if form != "keyword" else (None, (k, form))
+            n += 1
+            if got != want:
+                raise Refuted(f"cache_computed_values: call #{n} with a freshly built argument ({form}) returns the value memoised for an argument that no longer exists ({got} instead of {want}): "
+                              f"the key does not hold the argument", cex=dict(call=n, form=form), signature="cache:key:identity", replay=dict(confirmed=True))
+            del o
+    return Verdict(DISCHARGED, backend="native", sub=n)
+
+
 def ob_rows_cols(nPe, dof_n, which):
     t0 = time.time()
     Ne = z3.Int("Ne")
@@ -570,6 +599,8 @@ def build(tier, seed):
         for dn in dofs:
             obs.append(Ob(f"C03.assembly_e.nPe{nPe}.dof{dn}", ob_assembly, (nPe, dn), "P", fa, timeout=90,
                           clause="forall Ne, connectivity, e<Ne, n<nPe, d<dof_n: A[e, n*dof_n+d] == connect[e,n]*dof_n + d; shape (Ne, nPe*dof_n)"))
+    obs.append(Ob("C03.csr_map.key", ob_cache_key, (), "X", ("EasyFEA/Utilities/_cache.py::cache_computed_values",), bound="600 short-lived argument objects", timeout=120,
+                  clause="the memoised scatter pattern is keyed by the element groups themselves (kept alive by the key), never by an address that a later group can inherit"))
     obs.append(Ob("C03.assembly_e.width", ob_assembly_width, (), "X", fa, bound="5 narrow integer types at the edge of their range", timeout=120,
                   clause="dof numbers are computed in 64 bits whatever the integer type of the connectivity"))
     rc = [(n, d) for n in nPes for d in dofs if n * d <= (30 if tier == "quick" else 200)]
